@@ -189,6 +189,19 @@ def frame_reject_check(chk, rng, nframes):
                     pass
                 except ValueError:
                     pass
+        # bursts over the checksum field itself (the field becomes 0x0000 / 0xFFFF / ...), data untouched
+        crc = good[7] | (good[8] << 8)
+        for v in (0x0000, 0xFFFF, 0x0001, 0x00FF, 0xFF00):
+            if crc == v:
+                continue
+            bad = bytearray(good)
+            bad[7], bad[8] = v & 0xFF, v >> 8
+            chk.evaluations += 1
+            try:
+                Frame.deserialize(bytes(bad))
+                return {"kind": "burst-on-checksum-field", "frame": good.hex(), "field_becomes": "0x%04x" % v}
+            except InvalidFrame:
+                pass
         body = len(good) - 9  # checksummed bytes
         for _ in range(300):
             w = rng.randrange(1, 65536)
@@ -248,6 +261,9 @@ def rx_reject_check(chk, rng, thorough):
                 for o in range(0, nbits - 15):
                     pats += [(1, o), (3, o), (0x8001, o), (0xFFFF, o)]
                 pats += [(rng.randrange(1, 65536) | 1, rng.randrange(0, nbits - 15)) for _ in range(600 if thorough else 150)]
+                # bursts confined to the two checksum bytes that turn the field into a "special looking" value
+                crc = good[7] | (good[8] << 8)
+                pats += [(crc ^ v, 0) for v in (0x0000, 0xFFFF, 0x0001, 0x00FF, 0xFF00) if crc ^ v]
             for w, o in pats:
                 e = w << o
                 if e >> nbits:
